@@ -6,6 +6,7 @@ import (
 	"unsafe"
 
 	"github.com/philpearl/plenc/plenccore"
+	"github.com/philpearl/plenc/verifhook"
 )
 
 // StringCodec is a codec for an string
@@ -131,11 +132,13 @@ type InternedStringCodec struct {
 }
 
 func (c *InternedStringCodec) Read(data []byte, ptr unsafe.Pointer, wt plenccore.WireType) (n int, err error) {
+	verifhook.At("intern.load", c)
 	p := atomic.LoadPointer(&c.strings)
 	m := *(*map[string]string)((unsafe.Pointer)(&p))
 
 	s, ok := m[string(data)]
 	if !ok {
+		verifhook.At("intern.miss", c)
 		s = c.addString(data)
 	}
 
@@ -146,6 +149,7 @@ func (c *InternedStringCodec) Read(data []byte, ptr unsafe.Pointer, wt plenccore
 func (c *InternedStringCodec) addString(data []byte) string {
 	c.Lock()
 	defer c.Unlock()
+	verifhook.At("intern.locked", c)
 	p := atomic.LoadPointer(&c.strings)
 	m := *(*map[string]string)((unsafe.Pointer)(&p))
 
@@ -161,6 +165,7 @@ func (c *InternedStringCodec) addString(data []byte) string {
 		s = string(data)
 		m2[s] = s
 
+		verifhook.At("intern.store", c)
 		atomic.StorePointer(&c.strings, *(*unsafe.Pointer)(unsafe.Pointer(&m2)))
 	}
 	return s
